@@ -27,13 +27,20 @@ type Input struct {
 	Code    int    `json:"code,omitempty"`
 	Mods    int    `json:"mods,omitempty"` // Shift 1, Alt 2, Ctrl 4
 	Shifted int    `json:"shifted,omitempty"`
-	Start   bool   `json:"start,omitempty"`
-	Button  int    `json:"button,omitempty"`
-	MType   string `json:"mtype,omitempty"`
-	Col     int    `json:"col,omitempty"`
-	Row     int    `json:"row,omitempty"`
-	Mode    string `json:"mode,omitempty"` // t = "mode": decckm | deckpam | paste | m1000 | m1002 | m1003 | m1006
-	On      bool   `json:"on,omitempty"`
+	// Text: the text the key event carries when it is not the key's own character (grapheme cluster, AltGr
+	// level, composed text with Code 0); NoText: an event without text (synthesised by an application);
+	// Locks: 64 Caps Lock, 128 Num Lock; Et: "" press | repeat | release | paste (event type)
+	Text   string `json:"text,omitempty"`
+	NoText bool   `json:"notext,omitempty"`
+	Locks  int    `json:"locks,omitempty"`
+	Et     string `json:"et,omitempty"`
+	Start  bool   `json:"start,omitempty"`
+	Button int    `json:"button,omitempty"`
+	MType  string `json:"mtype,omitempty"`
+	Col    int    `json:"col,omitempty"`
+	Row    int    `json:"row,omitempty"`
+	Mode   string `json:"mode,omitempty"` // t = "mode": decckm | deckpam | paste | m1000 | m1002 | m1003 | m1006
+	On     bool   `json:"on,omitempty"`
 }
 
 type Scn struct {
@@ -68,6 +75,45 @@ var Named = map[string]rune{
 	"ENTER": vaxis.KeyEnter, "TAB": vaxis.KeyTab, "BACKSPACE": vaxis.KeyBackspace, "ESCAPE": vaxis.KeyEsc,
 	"KP_0": vaxis.KeyKeyPad0, "KP_1": vaxis.KeyKeyPad1, "KP_2": vaxis.KeyKeyPad2, "KP_3": vaxis.KeyKeyPad3, "KP_4": vaxis.KeyKeyPad4,
 	"KP_5": vaxis.KeyKeyPad5, "KP_6": vaxis.KeyKeyPad6, "KP_7": vaxis.KeyKeyPad7, "KP_8": vaxis.KeyKeyPad8, "KP_9": vaxis.KeyKeyPad9,
+	"KP_DECIMAL": vaxis.KeyKeyPadDecimal, "KP_DIVIDE": vaxis.KeyKeyPadDivide, "KP_MULTIPLY": vaxis.KeyKeyPadMultiply,
+	"KP_SUBTRACT": vaxis.KeyKeyPadSubtract, "KP_ADD": vaxis.KeyKeyPadAdd, "KP_EQUAL": vaxis.KeyKeyPadEqual, "KP_SEPARATOR": vaxis.KeyKeyPadSeparator,
+	"KP_ENTER": vaxis.KeyKeyPadEnter, "KP_BEGIN": vaxis.KeyKeyPadBegin,
+	"KP_LEFT": vaxis.KeyKeyPadLeft, "KP_RIGHT": vaxis.KeyKeyPadRight, "KP_UP": vaxis.KeyKeyPadUp, "KP_DOWN": vaxis.KeyKeyPadDown,
+	"KP_HOME": vaxis.KeyKeyPadHome, "KP_END": vaxis.KeyKeyPadEnd, "KP_PAGE_UP": vaxis.KeyKeyPadPageUp, "KP_PAGE_DOWN": vaxis.KeyKeyPadPageDown,
+	"KP_INSERT": vaxis.KeyKeyPadInsert, "KP_DELETE": vaxis.KeyKeyPadDelete,
+}
+
+// kpText: the text a keypad key produces with Num Lock on (the kitty keyboard
+// protocol reports it as the event's associated text).
+var kpText = map[string]string{"KP_0": "0", "KP_1": "1", "KP_2": "2", "KP_3": "3", "KP_4": "4", "KP_5": "5", "KP_6": "6", "KP_7": "7", "KP_8": "8", "KP_9": "9",
+	"KP_DECIMAL": ".", "KP_DIVIDE": "/", "KP_MULTIPLY": "*", "KP_SUBTRACT": "-", "KP_ADD": "+", "KP_EQUAL": "=", "KP_SEPARATOR": ","}
+
+var nameOf = func() map[rune]string {
+	m := map[rune]string{}
+	for n, c := range Named {
+		m[c] = n
+	}
+	return m
+}()
+
+func libEt(s string) vaxis.EventType {
+	switch s {
+	case "repeat":
+		return vaxis.EventRepeat
+	case "release":
+		return vaxis.EventRelease
+	case "paste":
+		return vaxis.EventPaste
+	}
+	return vaxis.EventPress
+}
+
+func runes(s string) []int {
+	out := []int{}
+	for _, r := range s {
+		out = append(out, int(r))
+	}
+	return out
 }
 
 func libMods(m int) vaxis.ModifierMask {
@@ -102,11 +148,11 @@ func absMods(m vaxis.ModifierMask) int {
 // alternate keys and associated text, which is what Vaxis requests) delivers
 // for the chord.
 func LibKey(in Input) vaxis.Key {
-	k := vaxis.Key{Modifiers: libMods(in.Mods), EventType: vaxis.EventPress}
+	k := vaxis.Key{Modifiers: libMods(in.Mods) | vaxis.ModifierMask(in.Locks&(64|128)), EventType: libEt(in.Et)}
 	if in.Name != "" {
 		k.Keycode = Named[in.Name]
-		if len(in.Name) == 4 && in.Name[:3] == "KP_" && in.Mods&^1 == 0 {
-			k.Text = in.Name[3:]
+		if in.Mods&^1 == 0 {
+			k.Text = kpText[in.Name]
 		}
 		return k
 	}
@@ -114,7 +160,9 @@ func LibKey(in Input) vaxis.Key {
 	if in.Mods&1 != 0 && in.Shifted != 0 {
 		k.ShiftedCode = rune(in.Shifted)
 	}
-	if in.Mods&^1 == 0 {
+	if in.Text != "" {
+		k.Text = in.Text
+	} else if in.Mods&^1 == 0 && !in.NoText {
 		if k.ShiftedCode != 0 {
 			k.Text = string(k.ShiftedCode)
 		} else {
@@ -428,6 +476,7 @@ func Run(ctx *Ctx, sc *Scn) (evs []trace.Ev, note string) {
 			vt.Update(k)
 			b := written()
 			n, rt, rtNoAlt, gots := 0, false, false, ""
+			allKeys, gotText, gotName, gotMods := true, "", "", 0
 			ctrlm := []int{} // ASCII keys c such that the decoded event matches Ctrl+c (for Ctrl chords whose control code several keys share)
 			if len(b) > 0 {
 				got, dead := h.decode(b)
@@ -436,10 +485,18 @@ func Run(ctx *Ctx, sc *Scn) (evs []trace.Ev, note string) {
 				}
 				n = len(got)
 				gots = asciiOf(fmt.Sprintf("%+v", got))
+				for _, g := range got {
+					if gk, ok := g.(vaxis.Key); ok {
+						gotText += gk.Text
+					} else {
+						allKeys = false
+					}
+				}
 				if n == 1 {
 					if gk, ok := got[0].(vaxis.Key); ok {
 						rt = gk.Matches(k.Keycode, k.Modifiers)
 						rtNoAlt = gk.Matches(k.Keycode, k.Modifiers&^vaxis.ModAlt)
+						gotName, gotMods = nameOf[gk.Keycode], absMods(gk.Modifiers)
 						if in.Mods == 4 && in.Name == "" {
 							for c := rune(32); c < 127; c++ {
 								if gk.Matches(c, vaxis.ModCtrl) {
@@ -456,10 +513,26 @@ func Run(ctx *Ctx, sc *Scn) (evs []trace.Ev, note string) {
 			what := fmt.Sprintf("key:%s:mods=%d", in.Name, in.Mods)
 			if in.Name == "" {
 				what = fmt.Sprintf("key:U+%04X:mods=%d", in.Code, in.Mods)
+				switch {
+				case in.Text == "":
+				case in.Code == 0:
+					what = fmt.Sprintf("key:text-without-key:mods=%d", in.Mods)
+				case len([]rune(in.Text)) > 1:
+					what = fmt.Sprintf("key:text-cluster:mods=%d", in.Mods)
+				default:
+					what = fmt.Sprintf("key:text-not-the-key-code:mods=%d", in.Mods)
+				}
+			}
+			et := in.Et
+			if et == "" {
+				et = "press"
+			} else {
+				what += ":" + et
 			}
 			evs = append(evs, trace.Ev{"ev": "key", "i": i, "what": what, "modes": modes, "name": in.Name, "code": in.Code, "mods": in.Mods,
-				"lower": in.Name == "" && unicode.ToUpper(rune(in.Code)) != rune(in.Code), "ascii": in.Name == "" && in.Code < 128,
-				"decckm": sc.Decckm, "deckpam": sc.Deckpam, "bytes": ints(b), "n": n, "rt": rt, "rtnoalt": rtNoAlt, "ctrlm": ctrlm, "got": gots})
+				"lower": in.Name == "" && unicode.ToUpper(rune(in.Code)) != rune(in.Code), "shifted": in.Shifted, "etype": et, "text": runes(k.Text),
+				"decckm": sc.Decckm, "deckpam": sc.Deckpam, "bytes": ints(b), "n": n, "rt": rt, "rtnoalt": rtNoAlt, "ctrlm": ctrlm, "got": gots,
+				"allkeys": allKeys, "gottext": runes(gotText), "gotname": gotName, "gotmods": gotMods})
 		case "paste":
 			if in.Start {
 				vt.Update(vaxis.PasteStartEvent{})
@@ -511,7 +584,49 @@ func shiftedOf(c int) int {
 
 var names = []string{"UP", "DOWN", "RIGHT", "LEFT", "HOME", "END", "INSERT", "DELETE", "PAGE_UP", "PAGE_DOWN",
 	"F1", "F2", "F3", "F4", "F5", "F6", "F7", "F8", "F9", "F10", "F11", "F12", "ENTER", "TAB", "BACKSPACE", "ESCAPE",
-	"KP_0", "KP_1", "KP_2", "KP_3", "KP_4", "KP_5", "KP_6", "KP_7", "KP_8", "KP_9"}
+	"KP_0", "KP_1", "KP_2", "KP_3", "KP_4", "KP_5", "KP_6", "KP_7", "KP_8", "KP_9",
+	"KP_DECIMAL", "KP_DIVIDE", "KP_MULTIPLY", "KP_SUBTRACT", "KP_ADD", "KP_EQUAL", "KP_SEPARATOR", "KP_ENTER", "KP_BEGIN",
+	"KP_LEFT", "KP_RIGHT", "KP_UP", "KP_DOWN", "KP_HOME", "KP_END", "KP_PAGE_UP", "KP_PAGE_DOWN", "KP_INSERT", "KP_DELETE"}
+
+// textKeys: printable keys whose text is not the character of their key code.
+func textKeys(rng *rand.Rand, thorough bool) []Input {
+	out := []Input{
+		// grapheme clusters typed or pasted on the host (the decoder puts the first code point into Keycode)
+		{T: "key", Code: 'e', Text: "e\u0301"}, {T: "key", Code: 'a', Text: "a\u0308\u0323"},
+		{T: "key", Code: 0x1F468, Text: "\U0001F468\u200d\U0001F469\u200d\U0001F467"}, {T: "key", Code: 0x1F1E9, Text: "\U0001F1E9\U0001F1EA"},
+		{T: "key", Code: 0x2764, Text: "\u2764\ufe0f"}, {T: "key", Code: 0x915, Text: "\u0915\u094d\u0937"},
+		// third level of a layout (AltGr), reported by the kitty protocol as key code + associated text
+		{T: "key", Code: 'q', Text: "@"}, {T: "key", Code: 'e', Text: "\u20ac"}, {T: "key", Code: '7', Text: "{"},
+		{T: "key", Code: 'q', Mods: 1, Shifted: 'Q', Text: "\u03a9"},
+		// Caps Lock: the letter key gives the capital, with Shift the small letter
+		{T: "key", Code: 'a', Locks: 64, Text: "A"}, {T: "key", Code: 'a', Mods: 1, Shifted: 'A', Locks: 64, Text: "a"}, {T: "key", Code: 0xE9, Locks: 64, Text: "\u00c9"},
+		// composed text / input method: text that belongs to no key
+		{T: "key", Code: 0, Text: "\u00e9"}, {T: "key", Code: 0, Text: "\u00f1"}, {T: "key", Code: 0, Text: "\u4f60\u597d"},
+		// an event without text (synthesised by an application)
+		{T: "key", Code: 'a', NoText: true}, {T: "key", Code: '1', NoText: true}, {T: "key", Code: 0xE9, NoText: true},
+	}
+	if thorough {
+		marks := []rune{0x300, 0x301, 0x302, 0x303, 0x308, 0x30A, 0x323, 0x327, 0x5B0, 0x64E, 0x93E, 0xFE0F, 0x20E3}
+		for k := 0; k < 120; k++ {
+			base := rune(codes()[rng.Intn(len(codes()))])
+			if base == ' ' || base > 0xFFFF {
+				base = 'o'
+			}
+			t := string(base)
+			for n := 1 + rng.Intn(3); n > 0; n-- {
+				t += string(marks[rng.Intn(len(marks))])
+			}
+			out = append(out, Input{T: "key", Code: int(base), Text: t})
+		}
+		for k := 0; k < 40; k++ {
+			a, b := 0x1F1E6+rng.Intn(26), 0x1F1E6+rng.Intn(26)
+			out = append(out, Input{T: "key", Code: a, Text: string(rune(a)) + string(rune(b))})
+			third := []rune("@#{}[]|\\~\u20ac\u00b5\u00df\u0142")
+			out = append(out, Input{T: "key", Code: 'a' + rng.Intn(26), Text: string(third[rng.Intn(len(third))])})
+		}
+	}
+	return out
+}
 
 func codes() []int {
 	var out []int
@@ -594,10 +709,49 @@ func Generate(seed int64, thorough bool) []*Scn {
 	for p := 0; p < 6; p++ {
 		out = append(out, &Scn{Kind: "paste", Paste: p%2 == 1, Form: p / 2, Inputs: []Input{{T: "paste", Start: true}, {T: "key", Code: 'a'}, {T: "paste"}, {T: "paste"}, {T: "paste", Start: true}}})
 	}
+	// keys carrying text that is not their key code, typed, auto-repeated and pasted (with and without bracketed paste)
+	for p := 0; p < 2; p++ {
+		var ins []Input
+		tk := textKeys(rng, thorough)
+		for _, et := range []string{"", "repeat", "paste"} {
+			if et == "paste" {
+				ins = append(ins, Input{T: "paste", Start: true})
+			}
+			for _, in := range tk {
+				in.Et = et
+				ins = append(ins, in)
+			}
+			if et == "paste" {
+				ins = append(ins, Input{T: "paste"})
+			}
+		}
+		out = append(out, &Scn{Kind: "text-keys", Paste: p == 1, Decckm: rng.Intn(2) == 0, Deckpam: rng.Intn(2) == 0, Form: rng.Intn(3), Inputs: ins})
+	}
+	// key releases (the host reports them when the application asked for key events) and auto-repeats
+	for cfg := 0; cfg < 4; cfg++ {
+		var ins []Input
+		for _, n := range names {
+			for m := 0; m < 8; m++ {
+				if !thorough && !(m == 0 && rng.Intn(4) == 0) && rng.Intn(24) != 0 {
+					continue
+				}
+				ins = append(ins, Input{T: "key", Name: n, Mods: m, Et: "release"}, Input{T: "key", Name: n, Mods: m, Et: "repeat"})
+			}
+		}
+		for _, c := range codes() {
+			for m := 0; m < 8; m++ {
+				if (!thorough || cfg != 0) && rng.Intn(24) != 0 {
+					continue
+				}
+				ins = append(ins, Input{T: "key", Code: c, Mods: m, Shifted: shiftedOf(c), Et: "release"}, Input{T: "key", Code: c, Mods: m, Shifted: shiftedOf(c), Et: "repeat"})
+			}
+		}
+		out = append(out, &Scn{Kind: "key-events", Decckm: cfg&1 != 0, Deckpam: cfg&2 != 0, Form: rng.Intn(3), Inputs: ins})
+	}
 	// the alternate screen with and without alternate-scroll (1007), with no tracking mode and with each one:
 	// wheel steps become cursor keys only when nothing reports the mouse
 	for _, m1007 := range []bool{false, true} {
-		for mm := 0; mm < 5; mm++ {
+		for mm := 0; mm < 7; mm++ {
 			var ins []Input
 			for _, btn := range []int{0, 1, 2, 3, 64, 65, 66, 67, 128, 129, 130, 131} {
 				for _, ty := range []string{"press", "release", "motion"} {
@@ -607,8 +761,15 @@ func Generate(seed int64, thorough bool) []*Scn {
 					ins = append(ins, Input{T: "mouse", Button: btn, MType: ty, Col: rng.Intn(80), Row: rng.Intn(24), Mods: rng.Intn(2) * rng.Intn(8)})
 				}
 			}
-			out = append(out, &Scn{Kind: "alt-scroll", Alt: true, M1007: m1007, Decckm: rng.Intn(2) == 0,
-				M1000: mm == 1, M1002: mm == 2, M1003: mm == 3, M1006: mm == 4 || rng.Intn(2) == 0, Inputs: ins})
+			// mm 0, 4 (nothing reports the mouse: the wheel becomes cursor keys) under both cursor-key modes: 5, 6
+			decckm := rng.Intn(2) == 0
+			if mm == 0 || mm == 4 {
+				decckm = false
+			} else if mm > 4 {
+				decckm = true
+			}
+			out = append(out, &Scn{Kind: "alt-scroll", Alt: true, M1007: m1007, Decckm: decckm,
+				M1000: mm == 1, M1002: mm == 2, M1003: mm == 3, M1006: mm == 4 || mm == 6 || rng.Intn(2) == 0, Inputs: ins})
 		}
 	}
 	// histories: the child changes its modes between inputs
@@ -626,11 +787,20 @@ func Generate(seed int64, thorough bool) []*Scn {
 			case x < 3:
 				sc.Inputs = append(sc.Inputs, Input{T: "mode", Mode: modeNames[rng.Intn(len(modeNames))], On: rng.Intn(2) == 0})
 			case x < 6:
+				et := []string{"", "", "", "", "", "", "repeat", "release"}[rng.Intn(8)]
+				if pasting {
+					et = "paste"
+				}
 				if rng.Intn(2) == 0 {
-					sc.Inputs = append(sc.Inputs, Input{T: "key", Name: names[rng.Intn(len(names))], Mods: rng.Intn(8)})
+					sc.Inputs = append(sc.Inputs, Input{T: "key", Name: names[rng.Intn(len(names))], Mods: rng.Intn(8), Et: et})
+				} else if rng.Intn(6) == 0 {
+					tk := textKeys(rng, false)
+					in := tk[rng.Intn(len(tk))]
+					in.Et = et
+					sc.Inputs = append(sc.Inputs, in)
 				} else {
 					c := codes()[rng.Intn(len(codes()))]
-					sc.Inputs = append(sc.Inputs, Input{T: "key", Code: c, Mods: rng.Intn(8), Shifted: shiftedOf(c)})
+					sc.Inputs = append(sc.Inputs, Input{T: "key", Code: c, Mods: rng.Intn(8), Shifted: shiftedOf(c), Et: et})
 				}
 			case x < 7:
 				pasting = !pasting
